@@ -2,10 +2,7 @@ package mempool
 
 import (
 	"fmt"
-	"os"
-	"path/filepath"
 	"sort"
-	"strings"
 	"sync"
 	"time"
 
@@ -16,15 +13,31 @@ import (
 const mempoolCfgTail = "INIT Init\nNEXT Next\nINVARIANT Inv\nINVARIANT EmitExp\n"
 
 // Explore runs TLC on one universe (exhaustive, graph dump, result tables).
-func Explore(ctx *vrun.Ctx, u *Universe, coverage bool) (*Model, *tlc.Result, error) {
+// With a mining setup the module extends Mining.tla and the design-level
+// invariants of the template algorithm are checked in every state as well.
+func Explore(ctx *vrun.Ctx, u *Universe, coverage, withMining bool) (*Model, *tlc.Result, error) {
 	c, err := BuildConcrete(u)
 	if err != nil {
 		return nil, nil, err
 	}
 	mod := "U_" + u.Name
-	tlaText, cfgText := u.Module(mod, "Mempool", c, mempoolCfgTail)
+	base, defs, cfgTail := "Mempool", "", mempoolCfgTail
+	var setup *MiningSetup
+	if withMining {
+		if setup, err = NewMiningSetup(c); err != nil {
+			return nil, nil, err
+		}
+		var extra string
+		defs, extra = setup.cfg(c)
+		base = "Mining"
+		cfgTail = extra + mempoolCfgTail + "INVARIANT AlgoSound\nINVARIANT AlgoComplete\n"
+	}
+	if ctx.Thorough && len(u.Txs) <= 5 {
+		cfgTail += "PROPERTY RejectedUnchanged\n"
+	}
+	tlaText, cfgText := u.Module(mod, base, c, defs, cfgTail)
 	res, err := tlc.Run(tlc.Opts{SpecDir: ctx.SpecDir("mempool"), Module: mod, CfgText: cfgText,
-		Files: map[string][]byte{mod + ".tla": []byte(tlaText)}, Workers: 3, Timeout: 20 * time.Minute,
+		Files: map[string][]byte{mod + ".tla": []byte(tlaText)}, Workers: 2, Timeout: 25 * time.Minute,
 		DumpGraph: true, Coverage: coverage, Scratch: ctx.Scratch, HeapGB: 4})
 	if err != nil {
 		return nil, res, fmt.Errorf("universe %s: %w", u.Name, err)
@@ -36,6 +49,7 @@ func Explore(ctx *vrun.Ctx, u *Universe, coverage bool) (*Model, *tlc.Result, er
 	if err != nil {
 		return nil, res, err
 	}
+	m.Mining = setup
 	return m, res, nil
 }
 
@@ -46,13 +60,25 @@ func tail(s string, n int) string {
 	return s
 }
 
-// universesFor returns the universes of a tier: the built-in shapes plus
-// seed-generated ones.
-func universesFor(ctx *vrun.Ctx) []*Universe {
-	us := BuiltinUniverses()
+// universesFor returns the universes of a property and tier: built-in shapes
+// plus seed-generated ones.
+func universesFor(ctx *vrun.Ctx, mining bool) []*Universe {
+	var us []*Universe
+	want := map[string]bool{"rbf": true, "orphans": true, "reorg": true}
+	if mining {
+		want = map[string]bool{"reorg": true, "mining": true, "sigops": true}
+	}
+	for _, u := range BuiltinUniverses() {
+		if ctx.Thorough || want[u.Name] {
+			us = append(us, u)
+		}
+	}
 	n := 2
+	if mining {
+		n = 1
+	}
 	if ctx.Thorough {
-		n = 10
+		n = 12
 	}
 	rng := ctx.Rand("universes")
 	for i := 0; i < n; i++ {
@@ -61,110 +87,116 @@ func universesFor(ctx *vrun.Ctx) []*Universe {
 	return us
 }
 
-type exploreResult struct {
-	m   *Model
-	res *tlc.Result
-	err error
-}
-
-// exploreAll runs TLC for all universes, a few at a time.
-func exploreAll(ctx *vrun.Ctx, us []*Universe, coverage bool) ([]*Model, error) {
-	out := make([]exploreResult, len(us))
-	sem := make(chan struct{}, 2)
-	var wg sync.WaitGroup
-	for i, u := range us {
-		wg.Add(1)
-		go func(i int, u *Universe) {
-			defer wg.Done()
-			sem <- struct{}{}
-			defer func() { <-sem }()
-			t0 := time.Now()
-			m, res, err := Explore(ctx, u, coverage)
-			out[i] = exploreResult{m, res, err}
-			if err == nil {
-				ctx.Logf("TLC universe %s: %d distinct states, %d transitions, %d edges, %.1fs", u.Name, res.Distinct, res.Generated, m.G.Edges, time.Since(t0).Seconds())
-			}
-		}(i, u)
-	}
-	wg.Wait()
-	var ms []*Model
-	for _, r := range out {
-		if r.err != nil {
-			return nil, r.err
-		}
-		ms = append(ms, r.m)
-	}
-	return ms, nil
-}
-
-func checkActionCoverage(ms []*Model, results map[string]int64) []string {
-	want := []string{"ProcessTx", "MaybeAcceptTx", "CheckAccept", "RemoveTx", "RemoveDoubleSpends", "RemoveOrphanTx", "ProcessOrphansOf", "Mine", "Reorg"}
-	seen := map[string]bool{}
-	for _, m := range ms {
-		for _, l := range m.Labels {
-			seen[l.Name] = true
-		}
-	}
-	var missing []string
-	for _, a := range want {
-		if !seen[a] {
-			missing = append(missing, a)
-		}
-	}
-	return missing
-}
+var allActions = []string{"ProcessTx", "MaybeAcceptTx", "CheckAccept", "RemoveTx", "RemoveDoubleSpends", "RemoveOrphanTx", "ProcessOrphansOf", "Mine", "Reorg"}
 
 // RunC10 is the check for property C10.
-func RunC10(ctx *vrun.Ctx) error {
-	return runBoth(ctx, false)
+func RunC10(ctx *vrun.Ctx) error { return runBoth(ctx, false) }
+
+type uniResult struct {
+	m      *Model
+	w      *Walker
+	err    error
+	tlcS   float64
+	replS  float64
+	finS   float64
 }
 
 func runBoth(ctx *vrun.Ctx, mining bool) error {
 	if ctx.Replay != "" {
 		return fmt.Errorf("--replay: re-run the tier with the seed recorded in the replay file (the file holds the universe and the abstract trace)")
 	}
-	us := universesFor(ctx)
-	ms, err := exploreAll(ctx, us, ctx.Thorough)
-	if err != nil {
-		return err
-	}
-	if missing := checkActionCoverage(ms, nil); len(missing) > 0 {
-		return fmt.Errorf("vacuity: actions never taken in any universe: %v", missing)
-	}
+	us := universesFor(ctx, mining)
 	workers := ctx.Workers
 	if workers > 8 {
 		workers = 8
 	}
+	results := make([]uniResult, len(us))
+	tlcSem := make(chan struct{}, 3) // concurrent TLC processes (2 workers each)
+	var replayMu sync.Mutex          // one universe replays at a time, on all workers
+	var wg sync.WaitGroup
+	for i, u := range us {
+		wg.Add(1)
+		go func(i int, u *Universe) {
+			defer wg.Done()
+			r := &results[i]
+			tlcSem <- struct{}{}
+			t0 := time.Now()
+			m, res, err := Explore(ctx, u, ctx.Thorough, mining)
+			<-tlcSem
+			if err != nil {
+				r.err = err
+				return
+			}
+			r.m, r.tlcS = m, time.Since(t0).Seconds()
+			ctx.Logf("TLC universe %s: %d distinct states, %d transitions, %d edges, %.1fs", u.Name, res.Distinct, res.Generated, m.G.Edges, r.tlcS)
+			ctx.AddModel(m.Distinct, m.Generated)
+			w := NewWalker(m, ctx)
+			w.Monitors = !mining
+			var tc *TemplateChecker
+			if mining {
+				tc = NewTemplateChecker(ctx, m, m.Mining)
+				w.OnState = tc.OnState
+				w.OnPathEnd = func(e *Env) {
+					if bad, _ := tc.FullValidation(e); bad != "" {
+						ctx.Violation("template:process-block", fmt.Sprintf("universe %s: %s", m.U.Name, bad), map[string]any{"universe": m.U})
+					}
+				}
+			}
+			replayMu.Lock()
+			t1 := time.Now()
+			err = w.Run(workers, 0, "replay")
+			r.replS = time.Since(t1).Seconds()
+			replayMu.Unlock()
+			r.w = w
+			if err != nil {
+				r.err = err
+				return
+			}
+			cov, edges := w.Coverage()
+			ctx.Logf("replay universe %s: %d paths, %d steps, %d/%d edges covered, drift %d, %.1fs", m.U.Name, w.Paths, w.Steps, cov, edges, w.Drift, r.replS)
+			if tc != nil {
+				tlcSem <- struct{}{}
+				t2 := time.Now()
+				err := tc.Finish()
+				<-tlcSem
+				r.finS = time.Since(t2).Seconds()
+				if err != nil {
+					r.err = err
+					return
+				}
+				ctx.Logf("template validation universe %s: %d templates, %.1fs", m.U.Name, len(tc.recs), r.finS)
+			}
+		}(i, u)
+	}
+	wg.Wait()
 	totalCov, totalEdges := 0, 0
 	var drift int64
 	var drifts []string
-	for _, m := range ms {
-		ctx.AddModel(m.Distinct, m.Generated)
-		w := NewWalker(m, ctx)
-		var tc *TemplateChecker
-		if mining {
-			tc = NewTemplateChecker(ctx, m)
-			w.OnState = tc.OnState
+	seen := map[string]bool{}
+	for _, r := range results {
+		if r.err != nil {
+			return r.err
 		}
-		t0 := time.Now()
-		if err := w.Run(workers, 0, "replay"); err != nil {
-			return err
+		for _, l := range r.m.Labels {
+			seen[l.Name] = true
 		}
-		cov, edges := w.Coverage()
+		cov, edges := r.w.Coverage()
 		totalCov += cov
 		totalEdges += edges
-		drift += w.Drift
-		drifts = append(drifts, w.drifts...)
-		ctx.Logf("replay universe %s: %d paths, %d steps, %d/%d edges covered, drift %d, %.1fs", m.U.Name, w.Paths, w.Steps, cov, edges, w.Drift, time.Since(t0).Seconds())
-		if tc != nil {
-			if err := tc.Finish(); err != nil {
-				return err
-			}
-		}
-		if len(ctx.Ev.Coverage.Samples) < 3 {
-			ctx.Sample(map[string]any{"universe": m.U.Name, "transactions": len(m.U.Txs), "states": m.Distinct, "edges": edges, "edges_replayed": cov, "paths": w.Paths})
+		drift += r.w.Drift
+		drifts = append(drifts, r.w.drifts...)
+		ctx.Sample(map[string]any{"universe": r.m.U.Name, "transactions": len(r.m.U.Txs), "states": r.m.Distinct, "edges": edges, "edges_replayed": cov, "paths": r.w.Paths})
+	}
+	var missing []string
+	for _, a := range allActions {
+		if !seen[a] {
+			missing = append(missing, a)
 		}
 	}
+	if len(missing) > 0 {
+		return fmt.Errorf("vacuity: actions never taken in any universe: %v", missing)
+	}
+	ctx.SetExtra("universes", int64(len(us)))
 	ctx.SetExtra("edges_total", int64(totalEdges))
 	ctx.SetExtra("edges_replayed", int64(totalCov))
 	ctx.SetExtra("model_drift", drift)
@@ -178,16 +210,15 @@ func runBoth(ctx *vrun.Ctx, mining bool) error {
 		}
 		ctx.SetExtra("model_drift_examples", drifts)
 	}
-	ctx.Ev.Coverage.Exhaustive = totalCov == totalEdges && drift == 0
+	ctx.Ev.Coverage.Exhaustive = false
+	ctx.Ev.Coverage.Explanation = fmt.Sprintf("each universe (4-5 abstract transactions, 1-3 block slots, one policy configuration) is explored exhaustively by TLC and %d of its %d transitions were replayed into real nodes (transitions that depend on Go map iteration order are taken when the real node happens to choose them); the universes themselves are a sample of the transaction graphs and configurations the property quantifies over", totalCov, totalEdges)
 	if mining {
-		ctx.Ev.Coverage.Rule = "every reachable state of every explored universe (TLC exhaustive): NewBlockTemplate on the real pool/chain, template validated against Mining.tla with the pool state of the specification"
+		ctx.Ev.Coverage.Rule = "at every reachable state of every explored universe NewBlockTemplate runs on the real pool/chain under three mining policies; each template record is judged by Mining.tla (TemplateFailures) against the pool state of the specification"
 	} else {
-		ctx.Ev.Coverage.Rule = "every transition of the exhaustive TLC state graph of every universe replayed into a real TxPool+BlockChain+SyncManager, observable projection compared after each step"
+		ctx.Ev.Coverage.Rule = "every transition of the exhaustive TLC state graph of every universe is replayed into a real TxPool+BlockChain+SyncManager and the observable projection compared with the specification after each step"
 	}
 	ctx.Assume("block timestamps and the adjusted time come from the wall clock within a two hour window; orphan expiry (15 min) and rate-limiter decay (10 min window) do not fire during a replay")
 	ctx.Assume("transactions are anyone-can-spend scripts; signature checking itself is covered by C06/C07")
-	_ = os.Getenv
-	_ = filepath.Join
-	_ = strings.Join
+	ctx.Assume("blocks mined during a replay carry no witness transactions (their coinbase is fixed in advance); witness transactions are pooled and appear in templates")
 	return nil
 }
